@@ -316,6 +316,22 @@ Section Written.
       exists v'. auto.
   Qed.
 
+  (* every written non-FICTIVE volume is a listed cell and has a denotation: that
+     of its cell *)
+  Lemma written_den : forall k v, lookup k (written skipped d') = Some v -> v_fict v = false ->
+    In k todo /\ Vden sigma (written skipped d') k (cden k).
+  Proof.
+    rewrite written_all.
+    pose proof (convert_cells_keys _ _ _ _ _ _ _ _ Hrun) as Hk.
+    destruct (prune_sound sigma u0 u1 rn (vols s') d' Hk Hprune Hcons Hresp) as (P1 & P2 & P3 & P4 & _).
+    destruct (cells_table sigma cden cells matching u0 u1 Hu0 Hu1 Hcons cells_ok fuel todo cnt0 s'
+                Hnd Hle Hrun) as (_ & A & B).
+    intros k v Hl Hf. destruct (P4 k v Hl) as (v0 & Hv0 & Hf0).
+    assert (In k todo) as Hin by (apply (B k v0 Hv0); congruence). split; [exact Hin|].
+    destruct (A k Hin) as [(v1 & Hl1 & _ & Hv1)|[Hn _]]; [|congruence].
+    exact (P2 k v (cden k) Hl Hv1).
+  Qed.
+
   Lemma written_partition c :
     cden c = true -> (forall c', In c' todo -> cden c' = true -> c' = c) ->
     (In c todo -> forall k, in_volume sigma (written skipped d') k <-> k = c) /\
